@@ -71,6 +71,11 @@ class RealStore:
                     from factorysimpy.base.fleet_store import FleetStore
                     self.store = FleetStore(self.env, capacity=cfg["cap"], delay=cfg["fdelay"] * TICK,
                                             transit_delay=cfg["transit"] * TICK)
+            elif kind in ("conveyor", "slotted"):
+                # the belt stores behind their conveyor edges (ledger-level clauses only: C01, C02, C05, C07)
+                from .belt_driver import make_conveyor
+                self.edge = make_conveyor(self.env, {"type": kind, "cap": cfg["cap"], "slot": cfg.get("slot", 2), "acc": cfg.get("acc", 1)}, 1)
+                self.store = self.edge.belt
             else:
                 raise ValueError(kind)
             self.cmd = Commander(self.env, nprocs)
@@ -207,13 +212,18 @@ class RealStore:
              "ready": [], "cp": 2, "cg": 2, "occ": -1}
         if hasattr(s, "ready_items"):
             o["ready"] = [getattr(x, "gid", -1) for x in s.ready_items]
-        if self.edge is not None:
+        if self.edge is not None and self.kind in ("buffer", "fleet"):
             o["cp"] = 1 if self.edge.can_put() else 0
             o["cg"] = 1 if self.edge.can_get() else 0
             if self.kind == "buffer":
                 o["occ"] = self.edge.occupancy()
             else:
                 o["occ"] = self.edge.get_occupancy()
+        elif self.edge is not None:
+            try:
+                o["occ"] = self.edge.occupancy()
+            except NotImplementedError:      # the slotted conveyor does not implement occupancy()
+                pass
         q = True
         for (t, _p, _e, ev) in env._queue:
             if t <= env.now and ev.callbacks:
@@ -330,7 +340,8 @@ class RealStore:
             elif op in ("cp", "cg"):
                 t = self.resolve_token(c["n"])
                 ev["tok"] = t["gid"]
-                fn = (lambda: api.reserve_put_cancel(t["ev"])) if op == "cp" else (lambda: api.reserve_get_cancel(t["ev"]))
+                capi = api if hasattr(api, "reserve_put_cancel") else self.store
+                fn = (lambda: capi.reserve_put_cancel(t["ev"])) if op == "cp" else (lambda: capi.reserve_get_cancel(t["ev"]))
                 r = self.cmd.call(c["p"], fn)
                 if r[0] == "ret":
                     t["state"] = "cancelled"
@@ -499,5 +510,11 @@ def random_history(real, rng, nsteps, prios=(0,), filters=(1,), tags=(0,), delay
                      tag=rng.choice(tags), d=rng.choice(delays))
         ev, _res = real.call(c)
         evs.append(ev)
+        if real.kind in ("conveyor", "slotted") and ev["op"] == "put" and ev["res"] == "ok":
+            # two entries in one instant are the recorded known finding of C12 (and make the continuous belt raise):
+            # let at least one tick pass after every entry, as a single upstream producer would
+            evs.extend(real.settle_events())
+            evs.append(real.tick())
+            evs.extend(real.settle_events())
     evs.extend(real.settle_events())
     return evs
